@@ -7,14 +7,16 @@
 #include "oracle.h"
 
 enum { L_REIM, L_CPLX };
-enum { I_NATIVE, I_GENERIC, I_REF_DIRECT, I_AVX_DIRECT, I_BFS_REF, I_REC_REF, I_LEAF_REF, I_LEAF_AVX, I_BUILTIN_BUF, I_NAIVE, N_IMPL };
-static const char* impl_name[] = {"dispatch-native", "dispatch-generic", "ref-direct", "avx2-direct", "bfs16-ref", "rec16-ref", "leaf-ref", "leaf-avx", "builtin-buffers", "naive"};
+enum { I_NATIVE, I_GENERIC, I_REF_DIRECT, I_AVX_DIRECT, I_BFS_REF, I_REC_REF, I_LEAF_REF, I_LEAF_AVX, I_BUILTIN_BUF, I_NAIVE, I_AVX2_ONLY, I_FMA_ONLY, N_IMPL };
+// dispatch configuration (hook H1) under which the table of an implementation is created
+static int impl_cfg(int impl) { return impl == I_GENERIC ? DISP_GENERIC : (impl == I_AVX2_ONLY ? DISP_AVX2_ONLY : (impl == I_FMA_ONLY ? DISP_FMA_ONLY : DISP_NATIVE)); }
+static const char* impl_name[] = {"dispatch-native", "dispatch-generic", "ref-direct", "avx2-direct", "bfs16-ref", "rec16-ref", "leaf-ref", "leaf-avx", "builtin-buffers", "naive", "dispatch-avx2-only", "dispatch-fma-only"};
 enum { X_RANDOM, X_IMPULSE, X_CONSTANT, X_RESONANT, X_DYNRANGE, X_INTEGER, X_TINY, X_HUGE, X_NEARMAX, N_XFAM };
 static const char* xfam_name[] = {"random", "impulse", "constant", "resonant", "dynrange", "integer50", "scale2^-900", "scale2^+900", "one coefficient near DBL_MAX"};
 
 // table cache: [layout][inverse][native]
-static void* TAB[2][2][2][17];
-static size_t TABSZ[2][2][2][17];
+static void* TAB[2][2][4][17];
+static size_t TABSZ[2][2][4][17];
 static int tables_built_in_this_process;
 static void* get_table(int layout, int inverse, int native, uint64_t m) {
   unsigned k = ilog2(m);
@@ -126,8 +128,10 @@ static int run_impl(int layout, int impl, int inverse, uint64_t m, double* buf, 
   double* im = buf + m;
   switch (impl) {
     case I_NATIVE:
+    case I_AVX2_ONLY:
+    case I_FMA_ONLY:
     case I_GENERIC: {
-      void* t = get_table(layout, inverse, impl == I_NATIVE, m);
+      void* t = get_table(layout, inverse, impl_cfg(impl), m);
       if (layout == L_REIM) {
         if (inverse) reim_ifft((REIM_IFFT_PRECOMP*)t, buf);
         else reim_fft((REIM_FFT_PRECOMP*)t, buf);
@@ -311,9 +315,9 @@ static void fft_case(int layout, int impl, int inverse, uint64_t m, int fam, uns
     uint64_t th0 = 0;
     void* tab = 0;
     size_t tabsz = 0;
-    if (impl <= I_AVX_DIRECT) {
-      tab = get_table(layout, inverse, impl != I_GENERIC, m);
-      tabsz = TABSZ[layout][inverse][impl != I_GENERIC][ilog2(m)];
+    if (impl <= I_AVX_DIRECT || impl == I_AVX2_ONLY || impl == I_FMA_ONLY) {
+      tab = get_table(layout, inverse, impl_cfg(impl), m);
+      tabsz = TABSZ[layout][inverse][impl_cfg(impl)][ilog2(m)];
       th0 = hash_bytes(tab, tabsz, 1);
     }
     if (gomg.base) gb_free(&gomg);
@@ -561,4 +565,15 @@ void run_C06(void) {
   // modules / tables created, used and destroyed in random order, several alive at once
   for (unsigned rep = 0; rep < (G.thorough ? 240u : 24u); rep++)
     ops_lifecycle_case("C06 objects", LKM_REIM_FFT | LKM_REIM_IFFT | LKM_CPLX_FFT | LKM_CPLX_IFFT, (rep % 4) == 3 ? DISP_GENERIC : DISP_NATIVE, 160, 0, rep, "lifecycle_uses");
+  // the entry points of this property called a second time on the SAME buffers holding other data (new values, two limbs exchanged,
+  // one word moved between limbs): must equal a fresh call on that data (results or operands remembered by address)
+  {
+    static const char* const RNAMES[] = {"reim_fft", "reim_ifft", "cplx_fft", "cplx_ifft", "reim_fft_simple", "reim_ifft_simple", "cplx_fft_simple", "cplx_ifft_simple"};
+    static const uint64_t RN[] = {2, 16, 64, 1024};
+    for (size_t i = 0; i < ARRAY_LEN(RN); i++)
+      for (int cfg = DISP_NATIVE; cfg >= DISP_GENERIC; cfg--) {
+        if (cfg == DISP_GENERIC && (i & 1)) continue;
+        ops_recontent_case("C06 entry points", RNAMES, (int)ARRAY_LEN(RNAMES), RN[i], cfg, G.thorough ? 40 : 6, (unsigned)i, "same_buffers_other_data_calls");
+      }
+  }
 }
